@@ -256,11 +256,10 @@ func (s *Store) startOrReuseFile() (fref *FileRef, file File, err error) {
 	defer s.m.Unlock()
 
 	if s.footer != nil {
-		slocs, _ := s.footer.segmentLocs()
+		s.footer.segmentLocs()
 		defer s.footer.DecRef()
 
-		if len(slocs) > 0 {
-			fref := slocs[0].mref.fref
+		if fref := s.footer.fileRef(); fref != nil {
 			file := fref.AddRef()
 
 			return fref, file, nil
@@ -268,6 +267,26 @@ func (s *Store) startOrReuseFile() (fref *FileRef, file File, err error) {
 	}
 
 	return s.startFileLOCKED()
+}
+
+// fileRef returns the FileRef of the file that holds the segments of
+// this footer or, when the footer itself has no segments (only child
+// collections were ever written), those of one of its child footers.
+func (f *Footer) fileRef() *FileRef {
+	for i := range f.SegmentLocs {
+		mref := f.SegmentLocs[i].mref
+		if mref != nil && mref.fref != nil {
+			return mref.fref
+		}
+	}
+
+	for _, childFooter := range f.ChildFooters {
+		if fref := childFooter.fileRef(); fref != nil {
+			return fref
+		}
+	}
+
+	return nil
 }
 
 func (s *Store) startFileLOCKED() (*FileRef, File, error) {
